@@ -1,8 +1,42 @@
 (* C05  The lexer partitions its input and reports exact positions.
-   Unbounded statements are about the rune reader every token position comes from;
-   the statements about whole token sequences are finite (the bound is in the name)
-   and are complemented by the correspondence on generated texts (harness/lex.go). *)
-From InfluxQL Require Import Base.Prelude Lex.Token Lex.Reader Lex.Scanner Proofs.ReaderProofs Proofs.LexBounded.
+   Tiling and termination are proved for every text (C05_tokens_tile, through the refinement
+   C05_scan_is_stream_scan of the exact 3-slot-ring lexer to a lexer on plain texts, and
+   C05_every_token_consumes); the rune reader delivers every rune once at its line and column
+   (C05_reader_positions).  Token positions are the position of the first rune read for the token, which
+   is not the first character for string-like tokens and EOF: those two statements are refuted below, and
+   the finite statement C05_tiling_positions_upto3 covers positions of all other tokens on short texts. *)
+From InfluxQL Require Import Base.Prelude Lex.Token Lex.Reader Lex.Scanner Proofs.ReaderProofs Proofs.LexBounded
+  Lex.StreamLex Proofs.RingAt Proofs.RingRefine Proofs.StreamTile Proofs.LexTiling.
+
+(* every text without NUL runes, of any length: scanning until EOF with the exact lexer stops within |text|+1
+   tokens, and there are extents, one per token, that concatenate to the CR-folded text - every rune in exactly
+   one token, in order; every token but the last is not EOF and has a non-empty extent; the last is EOF *)
+Theorem C05_tokens_tile : forall ulower s, nz s ->
+  exists items : list (token * text * text),
+    map tl_of (fst (scan_all ulower (S (length (fold_cr s))) (new_reader s) [])) = map fst items /\
+    concat (map snd items) = fold_cr s /\
+    exists l0 lit, items = l0 ++ [(EOF, lit, [])] /\ Forall (fun it => fst (fst it) <> EOF /\ snd it <> []) l0.
+Proof. exact lexer_tiles. Qed.
+Print Assumptions C05_tokens_tile.
+
+(* one Scan of the exact lexer (3-slot ring, pushback, CR folding), from any state whose remaining input is the
+   text t with at most two runes pushed back, returns the token and literal the plain-text lexer computes from t
+   and leaves the remaining input that lexer leaves - for every t, NUL runes included *)
+Theorem C05_scan_is_stream_scan : forall ulower r t, at_ r t -> r_n r <= 2 ->
+  tl_of (fst (scan ulower r)) = fst (s_scan ulower t) /\ at_ (snd (scan ulower r)) (snd (s_scan ulower t)).
+Proof. exact ref_scan. Qed.
+Print Assumptions C05_scan_is_stream_scan.
+
+(* a token never gives back the rune it starts with, and never reads behind what it returns: the remaining text is
+   a suffix of the text behind the first rune *)
+Theorem C05_every_token_consumes : forall ulower t, canon t ->
+  suffix (snd (s_scan ulower t)) (snd (sread t)).
+Proof. exact s_scan_progress. Qed.
+Print Assumptions C05_every_token_consumes.
+
+(* the initial state is related to the folded text; non-vacuity of the hypotheses above *)
+Example C05_start : forall s, at_ (new_reader s) (strip (fold_cr s)) /\ r_n (new_reader s) <= 2.
+Proof. intros s. split; [apply at_new|cbn; lia]. Qed.
 
 (* every rune of a NUL-free text, of any length, is delivered exactly once, in order, CR/CRLF folded,
    and recorded at its zero-based line and column *)
